@@ -1,3 +1,6 @@
 import NTV.Proofs.C08
 #print axioms NTV.C08.modpow_correct
 #print axioms NTV.C08.leading_coefficient_inverse
+#print axioms NTV.C08.division_contract
+#print axioms NTV.C08.gcd_divides_both
+#print axioms NTV.C08.input_reduction
